@@ -165,6 +165,9 @@ impl Prop for C13 {
         }
         v.push(GenSpec::random("polyomino", tier.pick(3_000, 300_000)));
         v.push(GenSpec::random("chamfer45", tier.pick(2_000, 200_000)));
+        // many-cornered convex polygons (round pads, 3..=130 corners) in every starting vertex and both directions, queried at their
+        // corners and one unit inside / outside the four extreme ones
+        v.push(GenSpec::enumerated("round-pads", 128));
         v.push(GenSpec::random("star", tier.pick(3_000, 300_000)));
         // triangles and convex quadrilaterals with coordinates up to 2^29 (inside the 32-bit GDSII range, products of differences beyond 2^53),
         // queried at lattice points within two units of their long slanted edges
@@ -228,6 +231,50 @@ impl Prop for C13 {
                 } else {
                     cx.count("rejected_not_simple");
                 }
+            }
+            "round-pads" => {
+                let c = 3 + cx.n as usize;
+                let r = [20_000.0f64, 977.0, 65_000.0][(cx.n % 3) as usize];
+                let centre: P = ((cx.n as i64 * 7919) % 1000 - 500, (cx.n as i64 * 104_729) % 1000 - 500);
+                let ring: Vec<P> = (0..c)
+                    .map(|k| {
+                        let a = std::f64::consts::FRAC_PI_2 + std::f64::consts::TAU * k as f64 / c as f64;
+                        (centre.0 + (r * a.cos()).round() as i64, centre.1 + (r * a.sin()).round() as i64)
+                    })
+                    .collect();
+                if !is_simple(&ring) {
+                    cx.count("rejected_not_simple");
+                    return;
+                }
+                cx.nontrivial(crate::rt::prng::strhash(&format!("{:?}", ring)));
+                let mut qs: Vec<P> = ring.clone();
+                qs.push(centre);
+                let ext = [
+                    *ring.iter().max_by_key(|p| p.1).unwrap(),
+                    *ring.iter().min_by_key(|p| p.1).unwrap(),
+                    *ring.iter().max_by_key(|p| p.0).unwrap(),
+                    *ring.iter().min_by_key(|p| p.0).unwrap(),
+                ];
+                for e in ext {
+                    let (dx, dy) = ((centre.0 - e.0).signum(), (centre.1 - e.1).signum());
+                    // towards the centre along the dominant axis, and away from it
+                    let (ax, ay) = if (centre.0 - e.0).abs() > (centre.1 - e.1).abs() { (dx, 0) } else { (0, dy) };
+                    for d in [1i64, 2, 50] {
+                        qs.push((e.0 + ax * d, e.1 + ay * d));
+                        qs.push((e.0 - ax * d, e.1 - ay * d));
+                    }
+                }
+                for start in 0..c {
+                    for rev in [false, true] {
+                        let mut poly: Vec<P> = (0..c).map(|k| ring[(start + k) % c]).collect();
+                        if rev {
+                            poly.reverse();
+                        }
+                        self.check_poly(cx, &poly, &qs, "round-pad");
+                    }
+                }
+                cx.count("round_pads");
+                cx.sample(|| json!({"corners": c, "radius": r}));
             }
             "star" => {
                 let nv = 3 + cx.rng.usize(14);
